@@ -477,14 +477,22 @@ def property_dependency_check(prop):
     if dep is None:
         return
 
+    # A dependency refers to a sibling Property, not to a sub-Section.
     try:
-        dep_obj = prop.parent[dep]
+        dep_obj = prop.parent.properties[dep]
     except KeyError:
         msg = "Property refers to a non-existent dependency object"
         yield ValidationError(prop, msg, LABEL_WARNING, validation_id)
         return
 
-    if prop.dependency_value not in dep_obj.values[0]:
+    if prop.dependency_value is None:
+        return
+
+    # The dependency value is usually given as text; accept it if it equals
+    # any value of the dependency Property or the text form of one.
+    dep_values = dep_obj.values
+    if prop.dependency_value not in dep_values and \
+            str(prop.dependency_value) not in [str(val) for val in dep_values]:
         msg = "Dependency-value is not equal to value of the property's dependency"
         yield ValidationError(prop, msg, LABEL_WARNING, validation_id)
 
